@@ -459,6 +459,11 @@ L3_HARNESSES = [
     ("l3_sys_pipe_w1_r4_r4", "l3sys::check_pipe(1, 4, 4)", 10, "sys"),
     ("l3_sys_pipe_w0_r2_r0", "l3sys::check_pipe(0, 2, 0)", 10, "sys"),
     ("l3_sys_pipe_foreign_fd", "l3sys::check_pipe_foreign_fd(2)", 18, "sys"),
+    ("l3_sys_pipecall_read_n3_c2", "l3sys::check_pipe_read_call(3, 2)", 18, "sys"),
+    ("l3_sys_pipecall_read_n2_c4", "l3sys::check_pipe_read_call(2, 4)", 18, "sys"),
+    ("l3_sys_pipecall_read_n0_c1", "l3sys::check_pipe_read_call(0, 1)", 18, "sys"),
+    ("l3_sys_pipecall_write_n1_c2", "l3sys::check_pipe_write_call(1, 2)", 18, "sys"),
+    ("l3_sys_pipecall_write_n0_c3", "l3sys::check_pipe_write_call(0, 3)", 18, "sys"),
     ("l3_hooks_before_k0", "l3hooks::check_phase(0, true)", 6, "hooks"),
     ("l3_hooks_before_k1", "l3hooks::check_phase(1, true)", 6, "hooks"),
     ("l3_hooks_before_k2", "l3hooks::check_phase(2, true)", 6, "hooks"),
@@ -657,6 +662,13 @@ STK_HARNESSES = [
     ("stk_start_a2_e1_l012", "check_start(2, 1, [0, 1, 2], 0xfff)", 10),
     ("stk_plain", "check_plain()", 10),
 ]
+STK_HARNESSES_THOROUGH = [
+    # further list shapes and a wider size range for the one-string case (thorough tier only)
+    ("stk_start_a3_e0_l102", "check_start(3, 0, [1, 0, 2], 0xfff)", 10),
+    ("stk_start_a0_e2_l11", "check_start(0, 2, [1, 1, 0], 0xfff)", 10),
+    ("stk_start_a1_e2_l210", "check_start(1, 2, [2, 1, 0], 0xfff)", 10),
+    ("stk_start_a1_e0_l9_wide", "check_start(1, 0, [9, 0, 0], 0xfffff)", 10),
+]
 STK_METHODS = ("init_stack", "init_stack_program_start", "init_stack_program_start_impl")
 
 
@@ -679,9 +691,9 @@ def stk_texts():
     return out
 
 
-def plan_stk():
+def plan_stk(tier="quick"):
     return [dict(name=n, decl="#[kani::proof]\n#[kani::unwind(%d)]\nfn %s() {\n    crate::harness::stk::%s\n}\n" % (u, n, c), fns=list(STK_METHODS))
-            for (n, c, u) in STK_HARNESSES]
+            for (n, c, u) in STK_HARNESSES + (STK_HARNESSES_THOROUGH if tier == "thorough" else [])]
 
 
 def stk_hash():
